@@ -11,6 +11,72 @@ use symrt::SymU;
 
 pub mod ant_protocol {
     pub use ::ant_protocol::*;
+    pub mod storage {
+        pub use crate::chunks::Chunk;
+        pub use ::ant_protocol::storage::*;
+    }
+}
+
+/// size of a chunk as the transplanted code sees it: native, except that a comparison with the MAX_CHUNK_SIZE
+/// placeholder is a comparison with the symbolic maximum, decided by the solver
+#[derive(Clone, Copy, Debug, PartialEq, Eq, PartialOrd, Ord)]
+pub struct Sz(pub usize);
+impl Sz {
+    fn sym(self) -> SymU<64> {
+        SymU::<64>::konst(self.0 as u64)
+    }
+}
+fn is_max(o: &usize) -> bool {
+    *o == self_encryption::MAX_PLACEHOLDER
+}
+impl std::fmt::Display for Sz {
+    fn fmt(&self, f: &mut std::fmt::Formatter<'_>) -> std::fmt::Result {
+        write!(f, "{}", self.0)
+    }
+}
+impl PartialEq<usize> for Sz {
+    fn eq(&self, o: &usize) -> bool {
+        if is_max(o) { self.sym() == max_chunk_size() } else { self.0 == *o }
+    }
+}
+impl PartialOrd<usize> for Sz {
+    fn partial_cmp(&self, o: &usize) -> Option<std::cmp::Ordering> {
+        if is_max(o) { Some(self.sym().cmp(&max_chunk_size())) } else { self.0.partial_cmp(o) }
+    }
+    fn lt(&self, o: &usize) -> bool {
+        if is_max(o) { self.sym() < max_chunk_size() } else { self.0 < *o }
+    }
+    fn le(&self, o: &usize) -> bool {
+        if is_max(o) { self.sym() <= max_chunk_size() } else { self.0 <= *o }
+    }
+    fn gt(&self, o: &usize) -> bool {
+        if is_max(o) { self.sym() > max_chunk_size() } else { self.0 > *o }
+    }
+    fn ge(&self, o: &usize) -> bool {
+        if is_max(o) { self.sym() >= max_chunk_size() } else { self.0 >= *o }
+    }
+}
+impl PartialEq<Sz> for usize {
+    fn eq(&self, o: &Sz) -> bool {
+        o == self
+    }
+}
+impl PartialOrd<Sz> for usize {
+    fn partial_cmp(&self, o: &Sz) -> Option<std::cmp::Ordering> {
+        o.partial_cmp(self).map(|c| c.reverse())
+    }
+    fn lt(&self, o: &Sz) -> bool {
+        o > self
+    }
+    fn le(&self, o: &Sz) -> bool {
+        o >= self
+    }
+    fn gt(&self, o: &Sz) -> bool {
+        o < self
+    }
+    fn ge(&self, o: &Sz) -> bool {
+        o <= self
+    }
 }
 
 pub mod ant_networking {
@@ -65,8 +131,8 @@ pub fn max_chunk_size() -> SymU<64> {
 pub mod self_encryption {
     //! Ideal self-encryption: data of at least MIN_ENCRYPTABLE_BYTES bytes is cut into max(3, ceil(len / PIECE))
     //! pieces; the "encrypted" chunk of a piece is an invertible image of the same length; the data map lists, per
-    //! piece, index, hash of the chunk, hash of the piece and its length. decrypt_full_set accepts exactly the
-    //! chunks the map names and returns the concatenation. PIECE is concrete; what the repository's code sees as
+    //! piece, index, hash of the chunk, hash of the piece and its length. decrypt_full_set returns the concatenation
+    //! of the decrypted chunks it is handed, by index (as lenient as the real crate). PIECE is concrete; what the repository's code sees as
     //! `*MAX_CHUNK_SIZE` is a symbolic value that the harness assumes to be at least PIECE.
     use super::*;
     use bytes::Bytes;
@@ -106,72 +172,18 @@ pub mod self_encryption {
         pub content: Bytes,
     }
 
-    /// `*MAX_CHUNK_SIZE` in the transplanted code: a symbolic size that compares with native sizes through the solver
-    #[derive(Clone, Copy, Debug)]
-    pub struct SymSize(pub SymU<64>);
-    impl SymSize {
-        /// only used as a buffer capacity hint (checked substitution in gen_client.py)
-        pub fn capacity_hint(self) -> usize {
-            0
-        }
-    }
-    impl PartialEq<usize> for SymSize {
-        fn eq(&self, o: &usize) -> bool {
-            self.0 == SymU::<64>::konst(*o as u64)
-        }
-    }
-    impl PartialOrd<usize> for SymSize {
-        fn partial_cmp(&self, o: &usize) -> Option<std::cmp::Ordering> {
-            Some(self.0.cmp(&SymU::<64>::konst(*o as u64)))
-        }
-        fn lt(&self, o: &usize) -> bool {
-            self.0 < SymU::<64>::konst(*o as u64)
-        }
-        fn le(&self, o: &usize) -> bool {
-            self.0 <= SymU::<64>::konst(*o as u64)
-        }
-        fn gt(&self, o: &usize) -> bool {
-            self.0 > SymU::<64>::konst(*o as u64)
-        }
-        fn ge(&self, o: &usize) -> bool {
-            self.0 >= SymU::<64>::konst(*o as u64)
-        }
-    }
-    impl PartialEq<SymSize> for usize {
-        fn eq(&self, o: &SymSize) -> bool {
-            o == self
-        }
-    }
-    impl PartialOrd<SymSize> for usize {
-        fn partial_cmp(&self, o: &SymSize) -> Option<std::cmp::Ordering> {
-            o.partial_cmp(self).map(|c| c.reverse())
-        }
-        fn lt(&self, o: &SymSize) -> bool {
-            o > self
-        }
-        fn le(&self, o: &SymSize) -> bool {
-            o >= self
-        }
-        fn gt(&self, o: &SymSize) -> bool {
-            o < self
-        }
-        fn ge(&self, o: &SymSize) -> bool {
-            o <= self
-        }
-    }
-    impl std::fmt::Display for SymSize {
-        fn fmt(&self, f: &mut std::fmt::Formatter<'_>) -> std::fmt::Result {
-            write!(f, "MAX_CHUNK_SIZE")
-        }
-    }
+    /// `*MAX_CHUNK_SIZE` in the transplanted code is a native usize *placeholder* (so that it can be printed, passed as
+    /// a capacity hint, handed through usize parameters); sizes of chunks are `shim::Sz`, whose comparisons recognise
+    /// the placeholder and compare with the symbolic maximum of this path through the solver instead.
+    /// Arithmetic on the placeholder is not modelled (no use of it exists in the transplanted code).
+    pub const MAX_PLACEHOLDER: usize = 1_048_577;
     pub struct MaxChunkSize;
     #[allow(non_upper_case_globals)]
     pub static MAX_CHUNK_SIZE: MaxChunkSize = MaxChunkSize;
     impl std::ops::Deref for MaxChunkSize {
-        type Target = SymSize;
-        fn deref(&self) -> &SymSize {
-            // a handle (two machine words); leaked per use, a handful per path
-            Box::leak(Box::new(SymSize(super::max_chunk_size())))
+        type Target = usize;
+        fn deref(&self) -> &usize {
+            &MAX_PLACEHOLDER
         }
     }
 
@@ -203,22 +215,18 @@ pub mod self_encryption {
         Ok((DataMap(infos), chunks))
     }
 
+    /// As lenient as the real crate: it decrypts the chunks it is handed, ordered by their index, and does not
+    /// compare their number or their hashes with the data map (missing chunks give shorter data, silently) --
+    /// handing over the full, right set is the caller's obligation.
     pub fn decrypt_full_set(data_map: &DataMap, chunks: &[EncryptedChunk]) -> Result<Bytes> {
         let mut sorted: Vec<&EncryptedChunk> = chunks.iter().collect();
         sorted.sort_by_key(|c| c.index);
-        if sorted.len() != data_map.0.len() {
-            return Err(Error::Generic(format!("expected {} chunks, got {}", data_map.0.len(), sorted.len())));
-        }
         let mut out = Vec::with_capacity(data_map.file_size());
-        for (info, c) in data_map.0.iter().zip(sorted) {
-            if c.index != info.index || XorName::from_content(&c.content) != info.dst_hash {
-                return Err(Error::Generic(format!("chunk {} is not the one the data map names", info.index)));
+        for c in sorted {
+            if c.index >= data_map.0.len() {
+                return Err(Error::Generic(format!("chunk index {} outside the data map", c.index)));
             }
-            let piece = image(&c.content);
-            if piece.len() != info.src_size || XorName::from_content(&piece) != info.src_hash {
-                return Err(Error::Generic(format!("chunk {} does not decrypt to its source piece", info.index)));
-            }
-            out.extend_from_slice(&piece);
+            out.extend_from_slice(&image(&c.content));
         }
         Ok(Bytes::from(out))
     }
